@@ -642,7 +642,9 @@ mod fuse {
         fn lin_log2_seg_size(arity: usize, n: usize) -> u32 {
             match arity {
                 3 => {
-                    debug_assert!(n <= 2 * Self::HALF_MAX_LIN_SHARD_SIZE);
+                    // n is the size of the largest shard, which can exceed the
+                    // nominal bound 2 * HALF_MAX_LIN_SHARD_SIZE
+                    debug_assert!(n <= Self::MAX_LIN_SIZE);
                     (0.85 * (n.max(1) as f64).ln()).floor().max(1.) as u32
                 }
                 _ => unimplemented!(),
